@@ -4,7 +4,7 @@
     sequences) instantiated with the pipeline model (Proofs/RunnerPipeline.v). *)
 From Coq Require Import ZArith List Bool Arith.
 From CV Require Import Model.Base Model.Pipeline Model.Runner Proofs.PipelineProofs Proofs.TallyProofs
-  Proofs.RunnerSafety Proofs.RunnerTermination Proofs.RunnerPipeline.
+  Proofs.RunnerSafety Proofs.RunnerTermination Proofs.RunnerLive Proofs.RunnerStats Proofs.RunnerPipeline.
 Import ListNotations.
 Open Scope nat_scope.
 
@@ -56,3 +56,33 @@ Theorem C06_schedules_bounded : forall (A O S : Type) (f : A -> O) (g : A -> S) 
   length ls + measure A O S chunks W s' <= measure A O S chunks W s.
 Proof. exact schedules_are_bounded. Qed.
 Print Assumptions C06_schedules_bounded.
+
+(** the main theorem: for every number W > 0 of workers, every chunking, every schedule (and every
+    fault pattern: a run that finishes has met none) -- a finished run has written the blocks of ALL
+    chunks in input order, and, statistics forming a commutative monoid, has merged exactly the
+    statistics of all chunks: the one-core total *)
+Theorem C06_final : forall (A O S : Type) (f : A -> O) (g : A -> S) szero sadd chunks W bad rfail ffail s,
+  0 < W ->
+  (forall a b c, sadd a (sadd b c) = sadd (sadd a b) c) -> (forall a b, sadd a b = sadd b a) -> (forall a, sadd szero a = a) ->
+  reachable A O S f g szero sadd chunks W bad rfail ffail s -> finished_ok s = true ->
+  written s = map f chunks /\ macc s = total_stats A S g szero sadd chunks.
+Proof. exact finished_stats_total. Qed.
+Print Assumptions C06_final.
+
+(** ... with the pipeline as the worker function: every destination holds what one core writes
+    there for the whole input, and the merged record count is the one-core count *)
+Theorem C06_multicore_final : forall order forder o d chunks W bad rfail ffail s,
+  0 < W ->
+  reachable (list read) (list read) Z (block order forder o d) (cstat order forder o) 0%Z Z.add chunks W bad rfail ffail s ->
+  finished_ok s = true ->
+  concat (written s) = records_of d (rep_files (Pipeline.run order forder o (concat chunks))) /\
+  macc s = rep_n (Pipeline.run order forder o (concat chunks)).
+Proof. exact multicore_final. Qed.
+Print Assumptions C06_multicore_final.
+
+(** no deadlock: a reachable state that is not terminal always has an enabled step *)
+Theorem C06_no_deadlock : forall (A O S : Type) (f : A -> O) (g : A -> S) szero sadd chunks W bad rfail ffail s,
+  0 < W -> reachable A O S f g szero sadd chunks W bad rfail ffail s -> terminal s = false ->
+  exists l s', step A O S f g sadd chunks W bad rfail ffail s l = Some s'.
+Proof. exact no_deadlock. Qed.
+Print Assumptions C06_no_deadlock.
